@@ -87,7 +87,7 @@ func c03Check(c c03Case, rec *evid.Recorder) *Fail {
 		if err != nil {
 			return failf("[%s] re-parsed tree incomplete: %v\nprinted %q", cfg, err, out)
 		}
-		if d := ir.Diff(want, got); d != "" {
+		if d := ir.Diff(c03Braced(want), got); d != "" {
 			return failf("[%s] printed code parses to a different tree: %s\nprinted %q\nwant %s\ngot  %s", cfg, d, out, trunc(ir.Sexp(want), 500), trunc(ir.Sexp(got), 500))
 		}
 		out2 := compile(p2, cfg).Code
@@ -105,8 +105,10 @@ func c03Check(c c03Case, rec *evid.Recorder) *Fail {
 func c03Gen(t *rapid.T, rec *evid.Recorder) c03Case {
 	r := gen.R{T: t}
 	g := &gen.Syn{R: r, MaxDepth: 1 + r.Intn(6, "depth"), StmtDepth: r.Intn(3, "sdepth"), Tpl: true}
+	fromParser := r.Intn(3, "fromparser") == 0
+	g.Dangling = !fromParser
 	tree := g.Program(3)
-	if r.Intn(3, "fromparser") == 0 {
+	if fromParser {
 		opt := layout.Options{Random: true, ASI: true, Comments: true}
 		if r.Bool("redundant") {
 			opt.Redundant = 150
@@ -120,6 +122,31 @@ func c03Gen(t *rapid.T, rec *evid.Recorder) c03Case {
 			c.Trivia = append(c.Trivia, r.Pick("triviakind", 5, 2, 2, 1))
 		}
 	}
+	return c
+}
+
+// c03Braced is the tree a printed programmatic tree must read back as: equal to
+// the tree itself, except that a brace-less then-branch which ends in an `if`
+// without `else`, under an `if` that has an `else`, comes back inside a block -
+// the statement-level counterpart of an explicit grouping node, and the only way
+// JavaScript has to keep that `else` with the outer `if`.  Trees from the parser
+// never contain the shape, so for them this is the identity.
+func c03Braced(n *ir.Node) *ir.Node {
+	found := false
+	ir.Walk(n, func(x *ir.Node) {
+		if x.K == ir.If && len(x.Kids) == 3 && x.Kids[2] != nil && x.Kids[1] != nil && x.Kids[1].K != ir.Block && gen.EndsOpenIf(x.Kids[1]) {
+			found = true
+		}
+	})
+	if !found {
+		return n
+	}
+	c := ir.Clone(n)
+	ir.Walk(c, func(x *ir.Node) {
+		if x.K == ir.If && len(x.Kids) == 3 && x.Kids[2] != nil && x.Kids[1] != nil && x.Kids[1].K != ir.Block && gen.EndsOpenIf(x.Kids[1]) {
+			x.Kids[1] = ir.N(ir.Block, "", x.Kids[1])
+		}
+	})
 	return c
 }
 
@@ -232,6 +259,8 @@ var c03Witnesses = []c03Case{
 	{Tree: prog(es(ir.N(ir.Unary, "-", ir.N(ir.Unary, "-", id("a")))))},
 	{Tree: prog(es(ir.N(ir.Unary, "-", ir.N(ir.Unary, "--", id("a")))))},
 	{Tree: prog(es(ir.N(ir.Call, "", ir.N(ir.Member, "toString", ir.N(ir.Num, "1")))))},
+	{Tree: prog(ir.N(ir.If, "", id("a"), ir.N(ir.If, "", id("b"), es(id("c")), nil), es(id("d"))))},
+	{Tree: prog(ir.N(ir.If, "", id("a"), ir.N(ir.While, "", id("w"), ir.N(ir.If, "", id("b"), es(id("c")), es(id("e")))), es(id("d"))))},
 	{Src: "a - -b"}, {Src: "a + ++b"}, {Src: "- -a"}, {Src: "1 .toString()"}, {Src: "a-- - b"}, {Src: "a - --b"},
 }
 
